@@ -8,8 +8,10 @@
     try_fast_path_rebase_note_remap, try_fast_path_cherry_pick_note_remap,
   and, as reference models validated by correspondence (not proved about git / serde):
     serde_json's string escaping (`jsonEscape`), git's `diff-tree --stdin --raw -z` output
-    for flat trees (`diffTreeOutput`), the line sets of the per-commit note the shortcut
-    copies and of the cumulative note the slow path writes (`perCommitLines`, `slowLines`).
+    for flat trees (`diffTreeOutput`), `git diff -U0` added lines (`addedBy`), the line sets of
+    the per-commit note the shortcut copies, of the cumulative state full replay carries and of
+    the note it writes (`perCommitLines`, `cumulativeLines`, `replayLines`), its prompt records
+    (`replayRecs`).
 
   Text is `List Char`.  The Rust scanners work on UTF-8 bytes and compare only against ASCII
   bytes; an ASCII byte never occurs inside a multi-byte UTF-8 sequence, so every byte offset
@@ -395,8 +397,8 @@ def baseIs (t c : Str) : Bool :=
     metadata apart from the base, and `b`'s base is `c`. -/
 def noteEquiv (a b c : Str) : Bool := sameUpToBase a b && baseIs b c
 
-/-! ## 6. per-commit notes (what the shortcut copies) vs cumulative notes (what the slow path
-      writes): ghost-level reference model of the line sets, used to decide O14 -/
+/-! ## 6. per-commit notes (what the shortcut copies) vs the cumulative state full replay carries
+      (and, until the /repo fix for O14, wrote as notes): ghost-level reference model -/
 
 /-- a line with ghost provenance: who wrote it and which commit of the rewritten range
     introduced it (`0` = before the range, `k` = the k-th commit, 1-based) -/
@@ -424,16 +426,10 @@ def treeTriples (keep : GLine → Bool) : GTree → List (Str × Str × Nat)
 def perCommitLines (k : Nat) (t : GTree) : List (Str × Str × Nat) :=
   treeTriples (fun l => l.born = k) t
 
-/-- every AI line of the range present in the tree -/
+/-- every AI line of the range present in the tree: the running state full replay carries from
+    one rewritten commit to the next (`current_attributions` / `current_va`) -/
 def cumulativeLines (t : GTree) : List (Str × Str × Nat) :=
   treeTriples (fun l => decide (1 ≤ l.born)) t
-
-/-- Slow path (`rewrite_authorship_after_rebase_v2` / `rewrite_authorship_after_cherry_pick`,
-    step 2 onward; after /repo 4fd233ae and efdc0647 the running state is first transformed to
-    the content at the first rewritten commit's parent, so no head-state lines of untouched
-    files survive) for the k-th commit when the tracked files are identical pairwise: every AI
-    line of the range present in the commit's tracked files (cumulative). -/
-def slowLines (tk : GTree) : List (Str × Str × Nat) := cumulativeLines tk
 
 /-- the session a note (given as triples) names for line `j` of `path` (first match) -/
 def lookupLine (note : List (Str × Str × Nat)) (path : Str) (j : Nat) : Option Str :=
